@@ -172,7 +172,7 @@ fn check_closest(acc: &mut Acc, idx: usize, s: &Subject, hp: HP, p: Point<f64>) 
                 acc.evals += 1;
                 let got = guard(|| gs.closest_point(&ps));
                 let ok = match (&got, want) {
-                    (Ok(Closest::Intersection(r)), _) => loc != E && *r == ps,
+                    (Ok(Closest::Intersection(r)), _) => loc != E && (r.x() - ps.x()).abs() <= 1e-12 * sc * (1.0 + ps.x().abs() / sc) && (r.y() - ps.y()).abs() <= 1e-12 * sc * (1.0 + ps.y().abs() / sc), // the query point up to rounding
                     (Ok(Closest::SinglePoint(r)), Some(w)) => {
                         let d2 = ((r.x() - ps.x()) / sc).powi(2) + ((r.y() - ps.y()) / sc).powi(2);
                         loc == E && (d2 - w).abs() <= 1e-9 * w && s.locate_tol(r.x() / sc, r.y() / sc) != E
@@ -193,7 +193,7 @@ fn check_closest(acc: &mut Acc, idx: usize, s: &Subject, hp: HP, p: Point<f64>) 
             let p32 = geo::Point::<f32>::new(p.x() as f32, p.y() as f32);
             let got32 = guard(|| g32.closest_point(&p32));
             let ok32 = match (&got32, want) {
-                (Ok(Closest::Intersection(r)), _) => loc != E && *r == p32,
+                (Ok(Closest::Intersection(r)), _) => loc != E && (r.x() - p32.x()).abs() <= 1e-5 * (1.0 + p32.x().abs()) && (r.y() - p32.y()).abs() <= 1e-5 * (1.0 + p32.y().abs()), // the query point up to f32 rounding
                 (Ok(Closest::SinglePoint(r)), Some(w)) => {
                     let d2 = (r.x() as f64 - p.x()).powi(2) + (r.y() as f64 - p.y()).powi(2);
                     loc == E && (d2 - w).abs() <= 1e-4 * (w + 0.01)
@@ -387,7 +387,8 @@ pub fn run(mut run: Run) -> i32 {
                 Err(e) => acc.viol(format!("closest_point panic {} (long segment)", name), idx, || w(e)),
                 Ok(Closest::Indeterminate) => acc.viol(format!("closest_point Indeterminate {} (long segment)", name), idx, || w("Indeterminate".into())),
                 Ok(Closest::Intersection(r)) => {
-                    if !is_on || r != pt {
+                    // the payload is the query point up to rounding of the computed foot (coordinates up to a few thousand here)
+                    if !is_on || (r.x() - pt.x()).abs() > 1e-11 || (r.y() - pt.y()).abs() > 1e-11 {
                         acc.viol(format!("closest_point Intersection for a point off the {} (or not the query point)", name), idx, || w(format!("Intersection({:?})", r)));
                     }
                 }
